@@ -136,6 +136,52 @@ pub fn emit_robust_case<T: Sc>(
         Ok(s) => out.buf.push_str(&s),
         Err(m) => out.line(&format!("outcome query panic {}", m)),
     }
+    // one case in four (cycled by a counter): first a parameter vector of the WRONG LENGTH (P+1, P-1 or
+    // 0 entries) is applied through `LeastSquaresProblem::set_params`.  A model honouring the contract
+    // rejects it; the problem must end up in the rejected state (no residuals) without panicking, and the
+    // following steps go on as usual (round 11)
+    {
+        static WRONG: std::sync::atomic::AtomicUsize = std::sync::atomic::AtomicUsize::new(0);
+        let k = WRONG.fetch_add(1, std::sync::atomic::Ordering::SeqCst);
+        if k % 4 == 1 {
+            let p = c.recipe.p();
+            let len = match (k / 4) % 3 {
+                0 => p + 1,
+                1 => p - 1,
+                _ => 0,
+            };
+            let bad: Vec<T> = (0..len).map(|i| T::of(1.5 + i as f64)).collect();
+            let av = DVector::from_vec(bad);
+            let r = with_deadline(5, move || {
+                prob.set(&av);
+                prob
+            });
+            match r {
+                None => {
+                    out.line("outcome wrongset hang");
+                    HANGS.fetch_add(1, std::sync::atomic::Ordering::SeqCst);
+                    out.end();
+                    return;
+                }
+                Some(Err(m)) => {
+                    out.line(&format!("outcome wrongset panic len={} {}", len, m));
+                    out.end();
+                    return;
+                }
+                Some(Ok(pb)) => {
+                    prob = pb;
+                    let pres = matches!(guarded(|| prob.res().is_some()), Ok(true));
+                    let pl = guarded(|| prob.params().len()).unwrap_or(usize::MAX);
+                    out.line(&format!("outcome wrongset ok len={} res={} plen={} p={}", len, if pres { "some" } else { "none" }, pl, p));
+                    // back to the state before: re-apply the parameters the problem reports
+                    let cur = prob.params();
+                    if cur.len() == p {
+                        let _ = guarded(|| prob.set(&cur));
+                    }
+                }
+            }
+        }
+    }
     if let Some(a2) = second {
         out.line(&format!("step set {}", slice_str(&a2)));
         emit_tables_poked(out, &c.recipe, &a2, &poke, &c.w);
